@@ -222,7 +222,7 @@ def run(ctx):  # noqa: C901, PLR0912, PLR0915
                       'impl_trace': tr, 'oracle': {'verdict': 'fail', 'clause': why[0]}})
         a, e = c17.reader_literals(c, tr)
         rlits.append((f'(FReq {a})', f'(FTrace {e})'))
-    mism, err = ctx.coq_mism('reader', c17.HEADER, 'fres_eqb', 'run_framing hdr_max available_encodings', rlits, shard=150,
+    mism, err = ctx.coq_mism('reader', c17.HEADER, 'fres_eqb', 'run_framing hdr_max available_encodings', rlits, shard=c17.shard_size(rlits),
                              deps=['Http/Gen_Params.vo', 'Http/Negotiation.vo'])
     if err:
         ctx.broken('correspondence', 'reader (coq evaluation)', err)
